@@ -1,17 +1,29 @@
 CONFIG = dict(
     id="C06",
     engine="pure",
-    technique="Lean 4 theorems (round trip, decoder totality with checked accesses, packet stream round trip, dictionary with trimmed keys, session layer never crashes) over a hand-written model + differential correspondence with the real codec and a real ClientSession",
+    technique="Lean 4 theorems (round trip, decoder totality with checked accesses, packet stream round trip, the composed path message->packet->stream->frame->packet->message, dictionary with trimmed keys and growth, "
+              "session read loop as a state machine that never crashes, client read loop under any fragmentation, memory model in which Decode results are values) over a hand-written model + differential correspondence with the real codec, a real ClientSession, the real tcpPlayerConn and the real client read loop",
     level_text="Machine-checked proof in Lean 4 that the model of message.Encode/Decode and of the packet encoder/decoder round-trips every "
                "message/packet list within protocol limits and that no byte string makes a checked index/slice fail (oob = Go panic); the model is tied "
                "to the Go code on every run by executing both on ~74k generated op lines (all byte strings <=2 bytes exhaustively, valid messages, "
                "truncations, mutations, malformed packet streams, encoder output re-read through the real tcpPlayerConn.GetNextMessage under many fragmentations, "
                "zlib round trips up to 17 MiB (32 MiB thorough), SetDictionary calls with blank-padded keys, two/many calls on one long-lived packet decoder "
-               "with earlier results read again, ~2300 real ClientSessions each fed one generated Data packet) and the property predicate is evaluated on the "
-               "implementation's own outputs; a death of the harness process (panic on a session's reader goroutine) is a witness (C06/server-crash).",
+               "with earlier results read again AFTER the caller overwrote the buffers it had handed to Decode, ~2300 real ClientSessions each fed one generated Data packet, "
+               "~250 real ClientSessions driven from status Start by whole scripts of frames (handshake with accepted/rejected JSON, ack, heartbeat, data before the ack, several packets "
+               "per frame, garbage), several messages in a row through the whole path Encode -> packet Encode -> fragmented stream -> GetNextMessage -> packet Decode -> message.Decode with "
+               "all decoded messages held until the end, the real pomelonet/client readPackets loop over fragmented frames, one *Message encoded twice, Encode / SetDictionary / Decode) "
+               "and the property predicate is evaluated on the implementation's own outputs; a death of the harness process (panic on a session's reader goroutine) is a witness (C06/server-crash). "
+               "Also proved: the composition (chain_roundtrip), the session read loop never panics on any frame script in any status (session_script_never_crashes) and delivers every message of a "
+               "regular session (session_script_delivers), the client read loop returns exactly the packets sent under ANY fragmentation (client_readloop_roundtrip), ParseHeader's index/slice "
+               "expressions never fail (parseHeader_checked_total), round trip across dictionary growth (decode_encode_dictionary_growth), and, in a memory model where packets are slices into heap "
+               "buffers, that what Decode returned keeps reading the same after any later caller writes / Decode calls (decode_results_are_values).",
     level_note="Trusted: Lean kernel, the harness/driver line protocol and canonicalisation, zlib as an abstract inverse pair (validated per payload), "
-               "the dictionary as mutually inverse finite maps, TrimSpace as trimming of space/\\t/\\n/\\r (exact on the ASCII keys generated). Aliasing of returned slices "
-               "cannot be expressed in the pure model: it is covered only by the differential pdec2/pdecs/pchk stream. The theorem is about the model; the differential run ties it to the code on sampled inputs only.",
+               "the dictionary as mutually inverse finite maps, TrimSpace as trimming of space/\\t/\\n/\\r (exact on the ASCII keys generated), encoding/json as an oracle "
+               "(the set of handshake bodies json.Unmarshal accepts is supplied per op by the harness). Aliasing of the PACKET decoder's results is expressed in a memory model (buffers with owners, packets as "
+               "slices; theorem decode_results_are_values) on which the model side of pdec2/pdecs/pchk runs; aliasing of message.Decode's result with its input (documented by the code) and of InflateData's "
+               "result with pooled storage is not in the model: it is covered by the differential mchain stream (messages held across later decodes). Resource exhaustion (a small deflate body that inflates "
+               "to gigabytes; InflateData has no output bound) is outside the model: `crash` is an out-of-range access only. Encode REPLACES message.Data by the deflated bytes (encodeMsgM, theorem "
+               "reencode_witness): the round trip is about one Encode per message object. The theorems are about the model; the differential run ties it to the code on sampled inputs only.",
     lean_targets=["Cell2v.Props.C06", "modeld_c06"],
     driver="modeld_c06",
     driver_root="Cell2v.Driver.C06",
@@ -19,7 +31,11 @@ CONFIG = dict(
     required_theorems=["decode_encode", "decode_total", "packets_roundtrip", "varint_roundtrip", "header_roundtrip", "SetDictionary_bijective", "decode_encode_any_dictionary", "frame_ok_iff_valid",
                        "trim_spec", "SetDictionary_stores_trimmed_key", "SetDictionary_order_independent",
                        "earlier_results_unchanged", "session_never_crashes", "session_closed_iff", "session_delivers_encoded",
-                       "stream_fragmentation_independent", "fragmented_stream_roundtrip", "stream_fuel_enough"],
+                       "stream_fragmentation_independent", "fragmented_stream_roundtrip", "stream_fuel_enough",
+                       "chain_roundtrip", "encodeM_spec", "encodeM_pure_without_compression", "reencode_witness", "route_too_long_witness",
+                       "client_readloop_roundtrip", "client_readloop_roundtrip_partial", "packet_decoder_prefix",
+                       "session_script_never_crashes", "session_script_closed_last", "session_status_logic", "session_script_delivers",
+                       "decode_encode_dictionary_growth", "SetDictionary_grows", "parseHeader_checked_total", "decode_results_are_values"],
     harness_pkg="./c06",
     go_flags=["-overlay=/verif/harness/c06/overlay/overlay.json"],
     mode="diff",
@@ -36,7 +52,14 @@ CONFIG = dict(
          "mutations of valid encodings, random strings, id-field stress, packet lists framed and re-split, malformed packet streams; "
          "SetDictionary calls (single entry incl. duplicates of route/code; multi-entry without duplicates) with ASCII keys padded by space/\\t/\\n/\\r or all blank, "
          "GetDictionary sorted, round trips on the trimmed routes; pdec2 (two Decode calls on one decoder, first result rendered before and after the second call), "
-         "pdecs/pchk (one decoder for the whole run, last 8 results kept alive and rendered again later); session stream: a real session.ClientSession over a scripted "
+         "pdecs/pchk (one decoder for the whole run, last 8 results kept alive and rendered again later); after every Decode call of pdec2/pdecs the harness OVERWRITES the buffer it handed in "
+         "(a recycled read buffer); crl: encoder frames (1..6, bodies 0..200 B) cut at explicit positions (frame boundaries, inside headers/bodies, random, several frames per read) and read by the real "
+         "pomelonet/client Client.readPackets over its one accumulating bytes.Buffer, packets queued, rendered when returned and again at the end; "
+         "mchain: 2..5 messages (most with payload compression and compressible payloads of different content, 40..700 B) through Encode, packet Encode, the fragmented stream, GetNextMessage, "
+         "packet Decode, message.Decode, every decoded *Message held until the stream is read and rendered only then; enc2: the same *Message encoded twice, second encoding decoded; "
+         "rtd: Encode, then SetDictionary (half of the time the message's own spelled-out route enters the dictionary), then Decode; "
+         "sscr/sgo: a real ClientSession from status Start fed a script of frames (regular: handshake, ack, 1..4 messages; irregular: any mix of handshake bodies from a table of valid/invalid JSON, ack, "
+         "heartbeat, encoded messages, frames with several packets, malformed frames, raw Data bodies), observation the owner's events in order then closed|open; session stream: a real session.ClientSession over a scripted "
          "PlayerConn with the real pomelo.SessionsImpl/sche.Sche/impls.ClientSessions and a recording ISessionsHandler, handshake + ack, then one Data packet "
          "(every message of length <=1, every flag byte x 7 tails, valid/truncated/mutated/random/varint-stress encodings), observation delivered <reqid,route,data> | closed, "
          "the trace is flushed before the packet is released so that a dying process leaves the staged input as witness; "
@@ -53,8 +76,13 @@ CONFIG = dict(
         "(then Go's map iteration order is irrelevant: theorem SetDictionary_order_independent); a call with a duplicate is issued as a single-entry map",
         "strings.TrimSpace modelled as trimming of ASCII space, \\t, \\n, \\r (Cell2v.Codec.trimWs); Go additionally trims \\v, \\f, U+0085, U+00A0 and other Unicode spaces, "
         "which the generator never puts into a key",
-        "aliasing (a returned []byte that shares memory with a buffer reused by a later call) is outside what a pure functional model can exhibit: "
-        "theorem earlier_results_unchanged states the clause, the pdec2/pdecs/pchk differential stream alone ties it to the Go code",
+        "aliasing of the packet decoder's results: memory model Cell2v.Codec.Heap/PRef/decodeH (Decode copies its input into a fresh decoder-private buffer and returns slices of it; "
+        "theorem decode_results_are_values); that the Go decoder really allocates per call and never points into its input is tied by the pdec2/pdecs/pchk/crl streams (inputs are overwritten after the call) only",
+        "white-box shim harness/c06/overlay/client_export_verif.go (mapped into package pomelonet/client with `go test -overlay`; nothing under /repo is modified): builds a Client with New() and returns "
+        "one iteration of readServerMessages (Client.readPackets on one long-lived bytes.Buffer); the harness's fragConn stands for the socket, every fragment is shorter than the 1024-byte scratch "
+        "so that one round consumes one fragment",
+        "encoding/json (handshake body) is an oracle: the harness lists in `hsok=` the handshake bodies of the script that json.Unmarshal into session.HandshakeData accepts",
+        "mchain/sscr/enc2: zlib is the table of (plain, deflated) pairs recorded from the real DeflateData for the payloads of the op; raw Data bodies in session scripts have the gzip bit cleared",
         "session stream: the harness's scripted PlayerConn replaces the TCP/WS acceptor conn (GetNextMessage hands over one framed packet, as tcpPlayerConn does); "
         "the harness goroutine plays the owner service (drains sche.Sche); a panic on the reader goroutine kills the harness process and is reported by bin/check "
         "as pseudo-op <harness-exit ...>, which the spec monitor maps to C06/server-crash",
@@ -69,7 +97,11 @@ CONFIG = dict(
         "byte slices handed to Decode have capacity = length (the harness makes exact copies), so an out-of-range slice expression is a panic",
         "packet body exactly 2^24 bytes is outside Packet.Valid (theorems d13_witness and frame_ok_iff_valid state what the old and the repaired encoder do there)",
         "dictionary keys are ASCII without \\v/\\f (on these strings.TrimSpace = trimming space/\\t/\\n/\\r)",
-        "inputs handed to Decode are never modified afterwards by the harness (message.Decode documents that Message.Data aliases its input: not flagged)",
+        "inputs handed to MESSAGE Decode are never modified afterwards by the harness (message.Decode documents that Message.Data aliases its input: not flagged); inputs handed to the PACKET "
+        "decoder are overwritten after the call (pdec2/pdecs) or live in the client's recycled read buffer (crl)",
+        "a message object is handed to Encode once (Encode replaces message.Data by the deflated bytes: theorems encodeM_spec, reencode_witness; the enc2 stream ties this behaviour)",
+        "messages of a chain/session script fit a packet: encoded length < 2^24 (hypothesis of chain_roundtrip / session_script_delivers)",
+        "memory exhaustion by a highly compressible body (InflateData reads without bound) is not a `crash` of the model",
         "ClientMsg carries ClientReqId = uint32(ID), Route, Data (type and error flag are dropped by SessionsImpl.ProcessMessage): that is what `delivered` compares",
     ],
 )
